@@ -21,7 +21,7 @@ pub fn prop() -> Prop {
             "rescue_raps and merkle examples draw their witness (seeds, leaf index) from the crate's own RNG: the structure of the case is a function of VERIF_SEED, those witness values are not",
             "release profile: Trace::validate is not run by the prover (its agreement with the independent checker is C29's subject)",
         ],
-        subs: vec![Sub::gen("genair", genair, 400, 6_000, 150_000), Sub::gen("many_queries", many_queries, 400, 32, 600), Sub::gen("long_sequences", long_sequences, 400, 600, 12_000), Sub::gen("bundled_examples", bundled_examples, 200, 700, 20_000)],
+        subs: vec![Sub::gen("genair", genair, 400, 6_000, 150_000), Sub::gen("many_queries", many_queries, 400, 32, 600), Sub::gen("long_sequences", long_sequences, 400, 600, 12_000), Sub::gen("bundled_examples", bundled_examples, 200, 700, 8_000)],
         required: vec![
             "field:f62", "field:f64", "field:f128", "ext:1", "ext:2", "ext:3", "folding:2", "folding:4", "folding:8", "folding:16", "remainder:0", "remainder:255",
             "unique_queries_255", "queries_1", "partitions_gt_1", "aux_segment", "periodic_column", "sequence_ge_64", "sequence_first_nonzero", "sequence_offset_ge_values", "example:fib2", "example:fib8", "example:mulfib2", "example:mulfib8", "example:fib_small", "example:vdf", "example:vdf_exempt", "example:rescue", "example:rescue_raps", "example:merkle",
